@@ -4,12 +4,12 @@ open Conv
 
 let kind_of_string = function
   | "i" -> GInt | "i8" -> GInt8 | "i16" -> GInt16 | "i32" -> GInt32 | "i64" -> GInt64
-  | "u" -> GUint | "u8" -> GUint8 | "u16" -> GUint16 | "u32" -> GUint32 | "u64" -> GUint64
+  | "u" -> GUint | "u8" -> GUint8 | "u16" -> GUint16 | "u32" -> GUint32 | "u64" -> GUint64 | "up" -> GUintptr
   | s -> failwith ("kind " ^ s)
 
 let string_of_kind = function
   | GInt -> "i" | GInt8 -> "i8" | GInt16 -> "i16" | GInt32 -> "i32" | GInt64 -> "i64"
-  | GUint -> "u" | GUint8 -> "u8" | GUint16 -> "u16" | GUint32 -> "u32" | GUint64 -> "u64"
+  | GUint -> "u" | GUint8 -> "u8" | GUint16 -> "u16" | GUint32 -> "u32" | GUint64 -> "u64" | GUintptr -> "up"
 
 (* decimal printing of an arbitrary Z via the model's own digit function *)
 let dec_string_of_z (x : z) : ostring =
